@@ -648,6 +648,61 @@ def classify_predicate(v):
     return kinds.pop() if len(kinds) == 1 else 'other'
 
 
+def logical_shape(v):
+    """How a predicate combines its ordering comparisons, each read as 'left is within / below right' (<=, <) or its
+    negation (>, >=): ('all', n) when it holds exactly if all n of them hold, ('any', n) when it fails exactly if all n
+    fail, ('not-all', n) / ('not-any', n) for their negations, else ('other', n).  Lets a rule tell a `everything agreed` guard from a `something agreed` guard by what they
+    compute, not by their names."""
+    import itertools
+    leaves = []
+
+    def ev(e, env):
+        if isinstance(e, Unk):
+            return ev(e.expr, env)
+        if isinstance(e, tuple) and e:
+            if e[0] == 'cmp':
+                if e[1] not in ('<', '<=', '>', '>='):
+                    raise ValueError
+                key = id(e)
+                if key not in env:
+                    raise KeyError(key)
+                return env[key] if e[1] in ('<', '<=') else not env[key]
+            if e[0] == 'not' and len(e) == 2:
+                return not ev(e[1], env)
+            if e[0] == 'or':
+                return any(ev(x, env) for x in e[1:])
+            if e[0] == 'and':
+                return all(ev(x, env) for x in e[1:])
+        raise ValueError
+
+    def collect(e):
+        if isinstance(e, Unk):
+            collect(e.expr)
+        elif isinstance(e, tuple) and e:
+            if e[0] == 'cmp':
+                leaves.append(id(e))
+            else:
+                for x in e[1:]:
+                    collect(x)
+    collect(v)
+    n = len(leaves)
+    if not 2 <= n <= 6:
+        return ('other', n)
+    try:
+        table = {bits: ev(v, dict(zip(leaves, bits))) for bits in itertools.product((False, True), repeat=n)}
+    except (ValueError, KeyError):
+        return ('other', n)
+    if all(val == all(bits) for bits, val in table.items()):
+        return ('all', n)
+    if all(val == any(bits) for bits, val in table.items()):
+        return ('any', n)
+    if all(val == (not all(bits)) for bits, val in table.items()):
+        return ('not-all', n)
+    if all(val == (not any(bits)) for bits, val in table.items()):
+        return ('not-any', n)
+    return ('other', n)
+
+
 class _NonzeroSteps(dict):
     """Marker for Explorer(pinned=...): the zero filter of the step generators is answered `keep the step` (assumption
     'no generated step is zero', stated by the rules that use it).  The test is recognised by what it is - a branch inside
@@ -733,7 +788,8 @@ class Explorer(object):
                     pending.append(list(decisions) + [(False,) + site[:2] + (tags_of(value),)])
                 by_site[site] = k
                 decisions.append((choice,) + site[:2] + (tags_of(value),))
-                self.site_info[site[:2]] = (interp.stack[-1] if getattr(interp, 'stack', None) else '', classify_predicate(base_val))
+                self.site_info[site[:2]] = (interp.stack[-1] if getattr(interp, 'stack', None) else '', classify_predicate(base_val),
+                                            logical_shape(base_val))
                 if oid is not None:
                     by_obj[oid] = (choice, base_val.expr)     # keeps the expression alive: ids stay unique
                 return choice != neg
